@@ -593,22 +593,12 @@ func r205and7(c *an.Ctx) {
 			call := sc.call
 			whole := false
 			if ln, ok := call.Common().Args[0].(*ssa.Call); ok && an.CalleeName(ln) == "builtin len" {
+				// len of the list itself, not of a window list[k:] of it (sources are followed into the caller
+				// when the search lives in a helper)
 				whole = true
-				if sc.via != nil {
-					// inside a helper: len(param), and the caller hands the list over whole (not a window of it)
-					whole = false
-					for _, src := range an.Sources(ln.Call.Args[0]) {
-						p, isP := src.(*ssa.Parameter)
-						if !isP {
-							continue
-						}
-						for pi, hp := range sc.in.Params {
-							if hp == p && pi < len(sc.via.Call.Args) {
-								if _, isSlice := sc.via.Call.Args[pi].(*ssa.Slice); !isSlice {
-									whole = true
-								}
-							}
-						}
+				for _, src := range an.Sources(ln.Call.Args[0]) {
+					if sl, isSlice := src.(*ssa.Slice); isSlice && sl.Low != nil {
+						whole = false
 					}
 				}
 			}
